@@ -314,10 +314,11 @@ class MEIExporter:
                     "Tuplet start note is after end note. Skipping tuplet element."
                 )
                 continue
-            # Skip if start and end notes are in different voices or staves
-            if start_note.voice != end_note.voice or start_note.staff != end_note.staff:
+            # Skip if start and end notes are in different voices (a voice is written as one
+            # layer, also when its notes are on different staves)
+            if start_note.voice != end_note.voice:
                 warnings.warn(
-                    "Tuplet start and end notes are in different voices or staves. Skipping tuplet element."
+                    "Tuplet start and end notes are in different voices. Skipping tuplet element."
                 )
                 continue
             # Find the note element corresponding to the start note i.e. has the same id value
